@@ -11,7 +11,7 @@ RULE = ("one case = one seed = one generated or repo model: (1) save -> load -> 
         "hash of (model, size)")
 ASSUME = [
     "a damaged file must be rejected with a warning/error and NULL, or yield a model whose 36 table fields are in bounds; an illegal value written into a table field must be rejected",
-    "allocations above 256 MiB are refused by the harness allocator (a corrupted size field must not make the check allocate gigabytes); the resulting 'Could not allocate memory' error counts as rejection",
+    "allocations above max(4 MiB, 16 x the size of the undamaged file) are refused by the harness allocator (a corrupted size field must not make the check allocate gigabytes); the resulting 'Could not allocate memory' error counts as rejection",
     "leaks on rejection are decided by the live-block table of the public allocator hooks",
 ]
 
